@@ -1,0 +1,32 @@
+//go:build verif
+
+package types
+
+// Thin exported views of the unexported rendering switch of secrets, for the C20 verification harness.
+// Compiled only with the `verif` build tag.
+
+// VerifSecretMarshallContent reports the per-object flag that allows Content to be rendered.
+func VerifSecretMarshallContent(s SecretConfig) bool { return s.marshallContent }
+
+// VerifSecretWithMarshallContent returns s with the flag set to b.
+func VerifSecretWithMarshallContent(s SecretConfig, b bool) SecretConfig {
+	s.marshallContent = b
+	return s
+}
+
+// VerifConfigMarshallContent reports the (unused) flag of a config object.
+func VerifConfigMarshallContent(s ConfigObjConfig) bool { return s.marshallContent }
+
+// VerifConfigWithMarshallContent returns s with the flag set to b.
+func VerifConfigWithMarshallContent(s ConfigObjConfig, b bool) ConfigObjConfig {
+	s.marshallContent = b
+	return s
+}
+
+// VerifApplyMarshallOptions is applyMarshallOptions with or without WithSecretContent.
+func VerifApplyMarshallOptions(p *Project, secretsContent bool) *Project {
+	if secretsContent {
+		return applyMarshallOptions(p, WithSecretContent)
+	}
+	return applyMarshallOptions(p)
+}
